@@ -326,6 +326,31 @@ def oneof_programs():
     out += variants(P('case_also_candidate', nodes, 'A', 'O', tags=['oneof', 'switch']),
                     [[R({'K': ['label:l1']})], [R({'K': ['label:l2']})], [R({'K': ['label:l1'], 'P1': ['raise:E1']})],
                      [R({'K': ['label:l1'], 'P2': ['raise:E2']})]], ['l1', 'l2', 'l1_p1fails', 'l1_p2fails'])
+    # the one-of reaches its next candidate (X) while X is already running for the candidate that has just failed
+    nodes = [N('A'), N('F', I('p1', 'A')), N('X', I('p1', 'A')), N('C1', I('p1', 'X'), I('p2', 'F')), N('O', OO('p1', ['C1', 'X']))]
+    out += variants(P('next_candidate_already_running', nodes, 'A', 'O', tags=['oneof']), [[R({'F': ['raise:E1']})], [R({})]],
+                    ['ffails', 'ok'])
+    # a candidate that a sibling candidate needs through an intermediate node; ... that only a non-selected case needs
+    nodes = [N('A'), N('X', I('p1', 'A')), N('W', I('p1', 'X')), N('C2', I('p1', 'W')), N('Z', I('p1', 'A')),
+             N('O', OO('p1', ['X', 'C2', 'Z']))]
+    out += variants(P('candidate_feeds_sibling_via_node', nodes, 'A', 'O', tags=['oneof']), [[R({'X': ['raise:E1']})], [R({})]],
+                    ['xfails', 'ok'])
+    nodes = [N('A'), N('X', I('p1', 'A')), N('W', I('p1', 'X')), N('C2', I('p1', 'W')), N('Z', I('p1', 'A')),
+             N('O', OO('p1', ['Z', 'C2', 'X']))]
+    out += variants(P('later_candidate_feeds_sibling_via_node', nodes, 'A', 'O', tags=['oneof']), [[R({})], [R({'Z': ['raise:E1']})]],
+                    ['ok', 'zfails'])
+    nodes = [N('A'), N('X', I('p1', 'A')), N('Z', I('p1', 'A')), N('DEC', I('p1', 'A')), N('Y', I('p1', 'X')), N('NN', I('p1', 'A')),
+             N('O', OO('p1', ['X', 'Z']), SW('p2', 'DEC', [('y', 'Y'), ('n', 'NN')], name='hc'))]
+    out += variants(P('candidate_input_of_unselected_case', nodes, 'A', 'O', tags=['oneof', 'switch']),
+                    [[R({'DEC': ['label:n'], 'X': ['raise:E1']})], [R({'DEC': ['label:y']})]], ['n_xfails', 'y'])
+    # a candidate whose only ordinary consumer is a hidden child: a sibling candidate / a candidate of another one-of
+    nodes = [N('A'), N('C2', I('p1', 'A')), N('C1', I('p1', 'C2')), N('C0', I('p1', 'A')), N('O', OO('p1', ['C1', 'C2', 'C0']))]
+    out += variants(P('cand_depends_on_sibling', nodes, 'A', 'O', tags=['oneof']),
+                    [[R({'C2': ['raise:E1']})], [R({})], [R({'C1': ['raise:E1']})]], ['c2fails', 'ok', 'c1fails'])
+    nodes = [N('A'), N('M', I('p1', 'A')), N('F', I('p1', 'M')), N('G', I('p1', 'A')), N('C1', I('p1', 'F')), N('C2', I('p1', 'A')),
+             N('O', OO('p1', ['G', 'F']), OO('p2', ['C1', 'C2']))]
+    out += variants(P('fallback_cand_feeds_other_candidate', nodes, 'A', 'O', tags=['oneof']), [[R({'F': ['raise:E1']})], [R({})]],
+                    ['ffails', 'ok'])
     # a candidate that reaches a switch whose selected case consumes a second switch whose selected case fails
     nodes = [N('A'), N('K2', I('p1', 'A')), N('BAD', I('p1', 'A')), N('GOOD', I('p1', 'A')),
              N('DEEP', SW('p1', 'K2', [('bad', 'BAD'), ('good', 'GOOD')], name='inner')), N('FLAT', I('p1', 'A')),
